@@ -420,6 +420,10 @@ func selectTree(r *rng, tmp string, idx int) {
 	src.WriteString("fail(\"GLOB=\" + \"\\x1e\".join(out) + \"=END\")\n")
 	os.WriteFile(filepath.Join(root, ".dawnconfig"), nil, 0o644)
 	os.WriteFile(filepath.Join(root, "BUILD.dawn"), []byte(src.String()), 0o644)
+	// what an earlier build leaves behind: glob() must never return any of it
+	os.MkdirAll(filepath.Join(root, ".dawn", "build", "sources"), 0o755)
+	os.WriteFile(filepath.Join(root, ".dawn", "build", "index.json"), []byte("{}"), 0o644)
+	os.WriteFile(filepath.Join(root, ".dawn", "build", "sources", "%2Fa.go"), []byte("{}"), 0o644)
 	// what is on disk
 	var files, entries []string
 	filepath.WalkDir(root, func(path string, d fs.DirEntry, err error) error {
@@ -462,9 +466,19 @@ func selectTree(r *rng, tmp string, idx int) {
 			if res[2*i+k] != "" {
 				got = strings.Split(res[2*i+k], "\x1f")
 			}
-			// dawn's own work directory may appear under os.glob's walk; it is not part of the generated tree
+			// dawn's own work directory may appear under os.glob's walk (a plain directory walk); it is not part of
+			// the generated tree. The project's glob() builtin, however, must never return anything of the build
+			// state directory .dawn/build: those files change with every build and would become sources.
 			var g2 []string
 			for _, p := range got {
+				if k == 0 && (p == ".dawn/build" || strings.HasPrefix(p, ".dawn/build/")) {
+					nviol++
+					bb, _ := json.Marshal(map[string]any{"kind": "glob-returns-build-state", "detail": p, "patterns": c.inc, "path": p,
+						"input": map[string]any{"builtin": which, "include": c.inc, "exclude": c.exc, "tree": universe}})
+					if nviol <= 20 {
+						fmt.Fprintf(out, "V\t%s\n", bb)
+					}
+				}
 				if p != ".dawn" && !strings.HasPrefix(p, ".dawn/") {
 					g2 = append(g2, p)
 				}
